@@ -11,6 +11,13 @@ type ssaFn = ssa.Function
 
 func debugDump(w *World, what string, args []string) {
 	switch what {
+	case "memokey":
+		r := NewReport("C06", "quick", "/tmp/dbg")
+		r.W = w
+		RunMemoKey(w, r, w.LibFuncs())
+		for _, o := range r.Obls {
+			fmt.Println(o.Rule, o.Key, o.Status, o.Detail)
+		}
 	case "panics":
 		debugPanics(w, args)
 	case "loops":
